@@ -66,8 +66,16 @@ def realize(cc, value, node=None):
 
 
 def make_field(cc, node, built, path):
+    prm = node.get("params", {})
+    extra = prm.get("validator2")
+    if extra and prm.get("validator") and prm.get("validators_by_one_decorator"):
+        # both validators registered afterwards through ONE decorator object that is applied twice
+        field = _make_field(cc, dict(node, params={k: v for k, v in prm.items() if k != "validator"}), built, path)
+        register = cc.validator(field)
+        register(_field_validator(built, path, prm["validator"]))
+        register(_field_validator(built, path, extra))
+        return field
     field = _make_field(cc, node, built, path)
-    extra = node.get("params", {}).get("validator2")
     if extra:
         # a second validator registered on the field afterwards, with the decorator
         cc.validator(field)(_field_validator(built, path, extra))
@@ -108,6 +116,7 @@ def _make_field(cc, node, built, path):
             kw["default"] = d
     p.pop("default_callable", None)
     p.pop("validator2", None)
+    p.pop("validators_by_one_decorator", None)
     vspec = p.pop("validator", None)
     if vspec:
         kw["validator"] = _field_validator(built, path, vspec)
